@@ -306,6 +306,38 @@ func c03(r *engine.Report, p *engine.Program) {
 	monitorUnreachableRule(r, p, "R6-no-spurious-cancel")
 	streamTimingRules(r, p)
 	quicConfigRule(r, p)
+	// R10 CloseConnection is QUIC CloseWithError: it discards everything unacknowledged, including
+	// the FIN. Only the request/response client in workceptor (which has read the complete reply)
+	// may use it; a relay that has merely handed its bytes to the stream must half-close instead.
+	{
+		var bad []string
+		n := 0
+		p.AllInstrs(func(fn *ssa.Function, in ssa.Instruction) {
+			if engine.IsMock(fn) {
+				return
+			}
+			ci, ok := in.(ssa.CallInstruction)
+			if !ok {
+				return
+			}
+			name := ""
+			if ci.Common().IsInvoke() {
+				name = ci.Common().Method.Name()
+			} else if o := engine.CalleeObj(ci.Common()); o != nil {
+				name = o.Name()
+			}
+			if name != "CloseConnection" {
+				return
+			}
+			n++
+			if !inPkg(fn, "workceptor") && !inPkg(fn, "netceptor") {
+				bad = append(bad, engine.FuncName(fn)+" at "+p.Pos(in.Pos()))
+			}
+		})
+		r.Check("R10-abortive-close", "CloseConnection (abortive close): callers", token.NoPos, len(bad) == 0 && n >= 5,
+			fmt.Sprintf("%d call sites, all in the remote-work client (which ends a request/response exchange it has read to the end)", n),
+			"the abortive close is called from "+strings.Join(bad, ", ")+": a relay that closes the whole QUIC connection right after bridging drops the unacknowledged tail and the FIN — the far reader sees a truncated stream and an error instead of all data followed by end-of-stream")
+	}
 }
 
 // quicConfigRule (C03 R9): an idle but healthy stream must survive: both ends configure the same
